@@ -33,7 +33,7 @@ Definition W3 : Z := max_rto_us + 2 * Dt + Dack.
    octets still unacknowledged and W3 = RTTE_MAX_RTO + 2 Dt + Dack is the bound of one round. *)
 Theorem all_written_bytes_eventually_acked : forall n evs fa st st' L0,
   0 <= Dt -> 0 <= Dack ->
-  NI st -> opts_ok st -> dl_sync fa st ->
+  NI st -> opts_ok st -> dl_sync Da fa st ->
   run_all safe st evs -> fair_run Dt Da fa st evs -> net_run st evs = Ok st' ->
   L0 <= l_len (ep_written (net_get st x)) ->
   L0 - una_off (net_get st x) <= Z.of_nat n ->
